@@ -109,7 +109,11 @@ def drive_case(case):
 
     pool = case["pool"]
     ops = case["operands"]
-    pipes = [mkpipe(pool[i - 1]) for i in ops]
+    objs = {}
+    for i in ops:  # (an operand named twice is the SAME object twice)
+        if i not in objs:
+            objs[i] = mkpipe(pool[i - 1])
+    pipes = [objs[i] for i in ops]
     op = case["op"]
     fmt = "default"
     Plain = backend_with()
